@@ -399,9 +399,11 @@ def unmarshal (k : Kind) (mode : PMode) (data : Bytes) : Dec Msg :=
 /-! ## operations -/
 
 /-- the `alg` check shared by every entry point: present in the prot map and different from the key's -/
+def headerAlg (p : CMap) : Int :=
+  match getInt (p.lookup (lbl Iana.HeaderParameterAlg)) with | .ok v => v | _ => 0
+
 def algMismatch (p : CMap) (keyAlg : Int) : Bool :=
-  p.has (lbl Iana.HeaderParameterAlg) &&
-    ((match getInt (p.lookup (lbl Iana.HeaderParameterAlg)) with | .ok v => v | _ => 0) != keyAlg)
+  p.has (lbl Iana.HeaderParameterAlg) && (headerAlg p != keyAlg)
 
 /-- nil prot ↦ `{1: key alg}` (if the key has one); otherwise the alg check -/
 def fillProtected (h : Hdr) (k : KeyView) : Res CMap :=
@@ -556,6 +558,11 @@ inductive NonceChoice
   | given (iv : Bytes)        -- caller's IV, or derived from the Partial IV
   | random                    -- draw `nonceSize` random bytes and publish them in header 5
 
+/-- the nonce `Decrypt` hands to the AEAD: without IV and Partial IV it is empty (and the AEAD refuses it) -/
+def NonceChoice.ivOrEmpty : NonceChoice → Bytes
+  | .given iv => iv
+  | .random => []
+
 /-- the nonce logic shared by `Encrypt` and `Decrypt` -/
 def selectNonce (unprot : CMap) (key : KeyView) (ivSize : Nat) : Res NonceChoice :=
   match getBytes (unprot.lookup (lbl Iana.HeaderParameterIV)), getBytes (unprot.lookup (lbl Iana.HeaderParameterPartialIV)) with
@@ -630,8 +637,7 @@ def decryptEnc (m : Msg) (mode : PMode) (e : Encryptor) (ext : Option Bytes) : R
           | .err er => .err er
           | .panic s => .panic s
           | .ok choice =>
-            let iv : Bytes := match choice with | .given iv => iv | .random => []
-            match e.decrypt iv ct aad with
+            match e.decrypt choice.ivOrEmpty ct aad with
             | .err er => .err er
             | .panic s => .panic s
             | .ok pt =>
